@@ -11,8 +11,8 @@ import (
 
 func init() {
 	register(&propDef{
-		ID:  "C03",
-		Run: ruleC03,
+		ID:          "C03",
+		Run:         ruleC03,
 		Explanation: "Decides the container typestate of the walkers, leaf-kind preservation of the scalar step and parser/serialiser agreement (structural necessary conditions of C03): (R1) in every walker loop over an input object each iteration performs exactly one Set on the associated fresh map, with the current key (or its pseudonym under the field-name flag); (R2) output arrays have len(input) and every index is stored exactly once at the loop index (in place: left as is only for nil); (R3) every return of a scalar-step function yields the JSON type of its input for every value kind the parser can produce and the call sites can pass (string->string, number->number, bool->bool, null->null), decided by intersecting the guard atoms with the parser's kind set; (R4) the serialiser hands to encoding/json only values that are provably neither an ordered map nor an array (the ordered map has no MarshalJSON), writes only structural constants or marshalled bytes, and closes every bracket it opens on every success path; (R5) the scan loop writes exactly the serialiser's result. NOT decided: duplicate keys, encoding/json's escaping and number rendering.",
 		RuleText:    "obligations = walker loops (bounded path enumeration with per-container store counting), returns of functions returning an interface value, json.Marshal call sites and buffer writes of the serialiser",
 	})
